@@ -416,6 +416,12 @@ namespace c07
     };
     auto same = [&](const SR& a, const SR& b, const char* what)
     {
+      {
+        // a breakdown of the method (0/0 after exhaustion of the Krylov space, scope facts ii/iii) is outside every promise:
+        // two runs that both end 'aborted' with a non-finite iterate count as the same result, however they got there
+        auto nonfin = [](const SR& r) { for(LD v : r.x) if(!std::isfinite((double)v)) return true; return false; };
+        if(a.status == (int)Status::aborted && b.status == (int)Status::aborted && nonfin(a) && nonfin(b)) return;
+      }
       VF_CHECK(a.status == b.status && a.iters == b.iters, "S5 " << what << ": status/iterations differ: " << status_name(a.status) << "/" << a.iters << " vs " << status_name(b.status) << "/" << b.iters);
       // bitwise, except that any NaN equals any NaN (IEEE 754 leaves sign and payload of an arithmetic NaN unspecified)
       size_t k = 0;
@@ -433,7 +439,7 @@ namespace c07
     // RGCR recycles a quarter of its search directions from the previous solve *by design*; a repeated solve
     // reproduces them exactly only if the previous solve on this symbolic state had the same inputs
     bool rgcr_clean = true;
-    SR R1 = do_solve(*solver, SA, NaN, &ra); judge(SA, R1, ra, "solve#1");
+    SR R1 = do_solve(*solver, SA, NaN, &ra); if(getenv("C07_DEBUG")) { FILE* df = fopen(getenv("C07_DEBUG"), "a"); if(df) { fprintf(df, "C07DBG first solve: %s/%lu poison=%d\n", status_name(R1.status), R1.iters, (int)poison); fclose(df); } } judge(SA, R1, ra, "solve#1");
     if(rep_a)
     {
       SR R2 = do_solve(*solver, SA, 0.0, &ra); judge(SA, R2, ra, "repeat");
